@@ -841,9 +841,48 @@ func (x *hist) genMsg(r *hx.Rng, wild bool, protected int, first bool) {
 	if first {
 		kind = 0
 	}
+	if !first && r.Chance(6) {
+		// address rotation of a validator of any status that sits in no queue, onto an unused address
+		var cand []int
+		for _, id := range sortedKeysV(x.prev.Vals) {
+			if !inQueue(x.prev.Rm, id) && !inQueue(x.prev.Re, id) && id != protected {
+				cand = append(cand, id)
+			}
+		}
+		un := x.rotTargets()
+		if len(cand) > 0 && len(un) > 0 {
+			v, v2 := cand[r.Intn(len(cand))], un[r.Intn(len(un))]
+			if r.Bool() {
+				x.rotate(v, v2)
+			} else {
+				x.rotateHalf(v, v2)
+			}
+			return
+		}
+	}
 	switch {
 	case kind < 28: // claim
 		un := x.unclaimed()
+		// a clean claim brings a consensus key nobody holds (after a rotation the old address is free again,
+		// but its former key still belongs to the rotated record)
+		var free []int
+		for _, id := range un {
+			used := false
+			for _, v := range x.prev.Vals {
+				if int(v.Cons) == id {
+					used = true
+				}
+			}
+			for _, p := range x.prev.Pend {
+				if int(p[1]) == id {
+					used = true
+				}
+			}
+			if !used {
+				free = append(free, id)
+			}
+		}
+		un = free
 		if id, ok := pick(un); ok && r.Chance(85) {
 			k := id
 			perm := true
@@ -855,7 +894,8 @@ func (x *hist) genMsg(r *hx.Rng, wild bool, protected int, first bool) {
 			}
 			x.claim(id, k, perm)
 		} else {
-			id := r.Intn(nCand + 1) // usually already claimed
+			ids := sortedKeysV(x.prev.Vals) // already claimed: must be refused
+			id := ids[r.Intn(len(ids))]
 			x.claim(id, id, true)
 		}
 	case kind < 52: // pause
